@@ -20,7 +20,7 @@ from vf import gen, prog, sem, oracles
 from vf.checks import c02
 
 PROP = "C13"
-CASES = {"quick": 640, "thorough": 9000}
+CASES = {"quick": 640, "thorough": 24000}
 RULE = ("base model from vf/gen.py, 2-5 rounds of (0-2 edits from {replace_init, drop_init, restore_init, add metric, "
         "assign metrics, add capped user constraint, add LMI [[e,t],[t,1]] with a fresh leaf}; solve with random "
         "options incl. primal/dual, dimension reduction, solver; evaluations of held objects).  Non-trivial = >= 2 "
